@@ -4,6 +4,7 @@ import (
 	"bytes"
 	"fmt"
 	"math/rand/v2"
+	"os"
 	"reflect"
 	"runtime"
 	"sort"
@@ -91,6 +92,9 @@ type c12shared struct {
 	types      []*gen.T
 	schemas    []avro.Schema
 	schemaJSON []string
+	// parsed schema documents with every node kind (fixed, enum, unions, logical types), shared for Marshal
+	docSchemas []avro.Schema
+	docJSON    []string
 	// a codec that is shared but has never been used before the goroutines start (lazily initialised
 	// state would be initialised concurrently); values include nil pointers to collections
 	coldT     *gen.T
@@ -175,7 +179,107 @@ func c12prepare(c *core.Ctx, r *rand.Rand) *c12shared {
 			sh.schemaJSON = append(sh.schemaJSON, string(js))
 		}
 	}
+	// shared parsed documents: one that is dense in fixed/enum nodes, the rest random
+	dense := &refavro.Schema{Type: "record", ObjectForm: true, Name: "dense", Fields: []refavro.Field{
+		{Name: "f", Type: &refavro.Schema{Type: "fixed", ObjectForm: true, Name: "f16", Size: 16}},
+		{Name: "e", Type: &refavro.Schema{Type: "enum", ObjectForm: true, Name: "e1", Symbols: []string{"A", "B"}}},
+		{Name: "af", Type: &refavro.Schema{Type: "array", ObjectForm: true, Items: &refavro.Schema{Type: "fixed", ObjectForm: true, Name: "f4", Size: 4, LogicalType: "decimal"}}},
+		{Name: "mf", Type: &refavro.Schema{Type: "map", ObjectForm: true, Values: &refavro.Schema{Type: "fixed", ObjectForm: true, Name: "f1", Namespace: "a.b", Size: 1}}},
+		{Name: "uf", Type: &refavro.Schema{Type: "union", Branches: []*refavro.Schema{{Type: "null"}, {Type: "fixed", ObjectForm: true, Name: "f12", Size: 12}}}},
+		{Name: "ts", Type: &refavro.Schema{Type: "long", ObjectForm: true, LogicalType: "timestamp-micros"}},
+	}}
+	docs := []*refavro.Schema{dense, {Type: "fixed", ObjectForm: true, Name: "top", Size: 7}}
+	for k := 0; k < 4; k++ {
+		docs = append(docs, gen.GenSchemaDoc(r, 3))
+	}
+	for _, d := range docs {
+		ps, err := avro.SchemaFromString(gen.RenderSchemaDoc(r, d))
+		if err != nil {
+			continue
+		}
+		js, err := ps.Marshal()
+		if err != nil {
+			continue
+		}
+		sh.docSchemas = append(sh.docSchemas, ps)
+		sh.docJSON = append(sh.docJSON, string(js))
+	}
 	return sh
+}
+
+var c12freshSeq atomic.Int64
+
+// c12freshBurst creates a key type that has never been looked up, releases builders and a registrar
+// from a spin barrier (with seeded stagger), and finishes with a build once everything has returned.
+// An unregistered key makes the holder's build fail (a struct under "long"): that is observation 0.
+func c12freshBurst(c *core.Ctx, i, fk, key int, nextID *atomic.Int64, fail func(kind, msg string)) []porcupine.Operation {
+	seq := c12freshSeq.Add(1)
+	kt := reflect.StructOf([]reflect.StructField{{Name: "V", Type: reflect.TypeOf(int64(0)), Tag: reflect.StructTag(fmt.Sprintf(`json:"fresh%d_%d"`, os.Getpid(), seq))}})
+	holder := reflect.New(reflect.StructOf([]reflect.StructField{{Name: "K", Type: kt, Tag: `json:"k"`}})).Interface()
+	gr := c.Rand(i, uint64(5000+fk))
+	builders := 2 + gr.IntN(5)
+	registrars := 1 + gr.IntN(2)
+	total := builders + registrars
+	var ready atomic.Int32
+	var mu sync.Mutex
+	var ops []porcupine.Operation
+	var wg sync.WaitGroup
+	build := func(client int, tok string) {
+		call := c12clock.Add(1)
+		s := avro.Schema{Type: "record", Object: &avro.SchemaObject{Fields: []avro.SchemaRecordField{{Name: "k", Type: avro.Schema{Type: "long", Object: &avro.SchemaObject{LogicalType: tok}}}}}}
+		_, err := s.Codec(holder)
+		ret := c12clock.Add(1)
+		seen, ok := c12seen.Load(tok)
+		obs := 0
+		switch {
+		case err == nil && ok:
+			obs = seen.(int)
+			c12seen.Delete(tok)
+		case err != nil && !ok:
+		default:
+			fail("build-fresh", fmt.Sprintf("err=%v builder-consulted=%v", err, ok))
+			return
+		}
+		mu.Lock()
+		ops = append(ops, porcupine.Operation{ClientId: client, Input: regOp{Key: key}, Call: call, Output: obs, Return: ret})
+		mu.Unlock()
+	}
+	for g := 0; g < total; g++ {
+		wg.Add(1)
+		stagger := gr.IntN(400)
+		go func(g, stagger int) {
+			defer wg.Done()
+			ready.Add(1)
+			for ready.Load() < int32(total) {
+			}
+			for x := 0; x < stagger; x++ {
+				_ = ready.Load()
+			}
+			if g < registrars {
+				id := int(nextID.Add(1))
+				call := c12clock.Add(1)
+				avro.Register(kt, c12builder(id))
+				ret := c12clock.Add(1)
+				mu.Lock()
+				ops = append(ops, porcupine.Operation{ClientId: g, Input: regOp{Key: key, Write: true, Val: id}, Call: call, Output: id, Return: ret})
+				mu.Unlock()
+				return
+			}
+			build(g, fmt.Sprintf("fresh-%d-%d-%d", i, fk, g))
+		}(g, stagger)
+	}
+	wg.Wait()
+	before := 0
+	for _, op := range ops {
+		if !op.Input.(regOp).Write && op.Output.(int) == 0 {
+			before++
+		}
+	}
+	c.Count("fresh.builds-that-saw-no-registration", int64(before))
+	c.Count("fresh.builds-that-saw-a-registration", int64(builders-before))
+	build(total, fmt.Sprintf("fresh-%d-%d-q", i, fk)) // at quiescence: the registration must be in effect
+	c.Count("fresh.bursts", 1)
+	return ops
 }
 
 type c12interval struct {
@@ -329,12 +433,18 @@ func runC12(c *core.Ctx, i int) {
 					}
 				case op < 49: // serialise and parse schemas (private results from shared Schema values)
 					kind = "schema-json"
-					j := gr.IntN(len(sh.types))
-					sc := sh.schemas[j]
+					j := gr.IntN(len(sh.types) + len(sh.docSchemas))
+					var sc avro.Schema
+					var wantJSON string
+					if j < len(sh.types) {
+						sc, wantJSON = sh.schemas[j], sh.schemaJSON[j]
+					} else {
+						sc, wantJSON = sh.docSchemas[j-len(sh.types)], sh.docJSON[j-len(sh.types)]
+					}
 					out, err := sc.Marshal()
 					keep := string(out)
 					runtime.Gosched()
-					if err != nil || keep != sh.schemaJSON[j] || string(out) != sh.schemaJSON[j] {
+					if err != nil || keep != wantJSON || string(out) != wantJSON {
 						fail(kind, "Marshal output differs from the sequential result")
 						break
 					}
@@ -438,6 +548,12 @@ func runC12(c *core.Ctx, i int) {
 	closers.Wait()
 	c.Eval(N * opsPer)
 	c.Count("operations", int64(N*opsPer))
+	// fresh keys: a registration racing with the very first codec builds for a type the library has
+	// never seen, then a build at quiescence; all of it goes into the codec-registry history
+	for fk := 0; fk < 6 && len(fails) == 0; fk++ {
+		ops := c12freshBurst(c, i, fk, 1000+fk, &nextID, fail)
+		codecHist = append(codecHist, ops...)
+	}
 	for _, f := range fails {
 		c.Violate("result-differs", fmt.Sprintf("under %d goroutines an operation did not produce its sequential result: %s", N, f), map[string]any{"goroutines": N})
 	}
@@ -538,7 +654,7 @@ func init() {
 		ID:        "C12",
 		Level:     "exploration",
 		Technique: "runtime monitoring: the Go race detector over a mixed concurrent workload with seeded yields at hook points, per-operation comparison with the sequential result, and porcupine linearizability checking of recorded registry histories (register-per-key model)",
-		Rule: "rounds of N in {2,4,8,16,32} goroutines x 24-60 seeded operations each: decode/encode with one shared codec into private targets/buffers, whole ReadFiles whose banks are closed on another goroutine, Encoder[T] on private writers, SchemaForType and Schema.Codec on shared types, timestamp parsing with arbitrary zone offsets, Register/RegisterSchema of uniquely identifiable builders on 4 keys while others build codecs/schemas for them; hook function = seeded Gosched/5us sleep between critical sections; " +
+		Rule: "rounds of N in {2,4,8,16,32} goroutines x 24-60 seeded operations each: decode/encode with one shared codec into private targets/buffers, whole ReadFiles whose banks are closed on another goroutine, Encoder[T] on private writers, SchemaForType and Schema.Codec on shared types, timestamp parsing with arbitrary zone offsets, Register/RegisterSchema of uniquely identifiable builders on 4 keys while others build codecs/schemas for them; Marshal of shared parsed schema documents containing every node kind; after each round 6 bursts in which 1-2 registrations race with the first 2-6 codec builds for a brand-new key type (spin barrier, seeded stagger) followed by a build at quiescence; hook function = seeded Gosched/5us sleep between critical sections; " +
 			"distinct_nontrivial = distinct interleaving signatures (order of hook-point hits per round)",
 		Explanation: "(1) the race build runs with GORACE=halt_on_error=1: a report kills the child and is a violation (a deliberately racy canary process proves the detector is live); (2) every operation has private inputs, so its result must equal the model/sequential result; (3) registry histories are recorded at the client boundary from one monotonic counter with unique written values and checked per key by porcupine (60 s cap => inconclusive).",
 		Assumptions: []string{"'all interleavings' is restated as the interleavings produced; the evidence reports operations, overlapping operation-kind pairs and distinct signatures"},
